@@ -19,6 +19,7 @@ private:
     Goldilocks::Element *powTwoInv;
     Goldilocks::Element *r;
     Goldilocks::Element *r_;
+    u_int64_t r_size = 0; // N the tables r, r_ were computed for
     int extension;
 
     static u_int32_t log2(u_int64_t size)
@@ -155,6 +156,7 @@ public:
         u_int64_t domainPow = log2(N);
         r = new Goldilocks::Element[N];
         r_ = new Goldilocks::Element[N];
+        r_size = N;
         r[0] = Goldilocks::one();
         r_[0] = powTwoInv[domainPow];
         for (int i = 1; i < N; i++)
